@@ -43,6 +43,8 @@ def configs(tier):
     # explicit states are indexed through _convert_basis_element_to_index: the rotation contracts above are proved per
     # basis string for up to 3-4 sites and rely on these two callees for every size; their contract (C19's exhaustive
     # obligation set) is shared here
+    out.append({"mode": "symbolic", "basis": "XY", "grad": "off"})          # rotations called under torch.no_grad()
+    out.append({"mode": "symbolic", "basis": "Y", "grad": "off"})
     for size in (range(1, 13) if tier == "quick" else range(1, 21)):
         out.append({"mode": "callee", "callee": "indexing", "size": size})
     return out
@@ -163,6 +165,9 @@ def _rotations(ctx, cfg):
         for L in sorted(set(basis) | {"X"}):
             if L != "Z":
                 ud[L] = _sym_complex((2, 2), "U" + L)
+        # names are case sensitive: 'x', 'y', 'z' are unitaries of the user's own, unrelated to 'X', 'Y', 'Z'
+        for L in "xyz":
+            ud[L] = _sym_complex((2, 2), "lower_" + L)
     else:
         ud = base
     cw.unitary_dict = dict(ud)
@@ -317,8 +322,9 @@ def _rotations(ctx, cfg):
                 unitaries.rotate_psi_inner_prod(cw, basis, batch, psi=psi_t)
                 unitaries.rotate_rho_probs(dm, basis, batch, rho=rho_t)
                 for k_ in list(cw.unitary_dict):
-                    cw.unitary_dict[k_] = ud2[k_]
-                    dm.unitary_dict[k_] = ud2[k_]
+                    if k_ in ud2:
+                        cw.unitary_dict[k_] = ud2[k_]
+                        dm.unitary_dict[k_] = ud2[k_]
             a = unitaries.rotate_psi_inner_prod(cw, basis, batch, psi=psi_t)
             for b, k in enumerate(order[:D]):
                 ctx.eq("history/%s: rotate_psi_inner_prod uses the dictionary of this call[b=%d]" % (how, b), a._arr[0, b] + I * a._arr[1, b], Upsi2[k], z3_confirm=False)
